@@ -7,7 +7,7 @@
 (*  SpecEnc: messages built record by record (shared names, fillers that     *)
 (*           push later names across the 16 KiB pointer range); checks       *)
 (*           Denote(Encode(m)) = m (C04) on the code-shaped encoder.         *)
-EXTENDS Wire, Json, TLC, SequencesExt
+EXTENDS Wire, Json, TLC, SequencesExt, Integers
 
 CONSTANTS MaxChunks, MaxRecs, GenRecs, Fillers
 
@@ -97,6 +97,10 @@ Inv_C04_RoundTrip ==
 Inv_C04_PtrTarget ==
     LET d == Denote(Encode(msg)) IN
     d.ok => PointersAfterHeader(d)
-Inv_GenEnc == NRecs(msg) <= GenRecs => PrintT(<<"GENMSG", ToJson(msg)>>)
+\* long opaque RDATA is printed as <<-1, length>> (the driver expands it again)
+CompactRR(rr) == IF Len(rr.raw) > 64 THEN [rr EXCEPT !.raw = <<0 - 1, Len(rr.raw)>>] ELSE rr
+CompactSec(s) == [i \in DOMAIN s |-> CompactRR(s[i])]
+Compact(m) == [m EXCEPT !.answers = CompactSec(@), !.authority = CompactSec(@), !.additional = CompactSec(@)]
+Inv_GenEnc == NRecs(msg) <= GenRecs => PrintT(<<"GENMSG", ToJson(Compact(msg))>>)
 
 =============================================================================
